@@ -278,7 +278,7 @@ def codec(run):
                 cparse.append((h[0], body + struct.pack(">L", binascii.crc32(body) & 0xFFFFFFFF)))
             if r.random() < 0.2 and len(d) > 24:
                 hb = bytearray(d[:20])                        # length field changed, crc recomputed over the announced part
-                ln = r.choice([0, 1, max(0, len(d) - 24 - 1), len(d) - 24 + 1, 65535])
+                ln = min(65535, r.choice([0, 1, max(0, len(d) - 24 - 1), len(d) - 24 + 1, 65535]))
                 hb[13:15] = struct.pack(">H", ln)
                 body = (bytes(hb) + d[20:])[:20 + ln]
                 cparse.append((h[0], body + struct.pack(">L", binascii.crc32(body) & 0xFFFFFFFF)))
@@ -506,7 +506,7 @@ def gen_histories(run):
         h.tick(len(h.sent) + 60)       # one message per tick at worst, plus the 1 s after which re-sends stop
         return h
 
-    quick_mtus = [512, 513, 576, 1095, 1096, 1097, 1280, 1499, 1500] + [r.randrange(512, 1501) for _ in range(3)]
+    quick_mtus = [512, 513, 576, 1095, 1096, 1097, 1280, 1499, 1500] + [r.randrange(512, 1501) for _ in range(12)]
     mtus = list(range(512, 1501)) if run.thorough() else quick_mtus
     for mtu in mtus:
         role = r.choice(["client", "server"])
@@ -525,7 +525,7 @@ def gen_histories(run):
             hs.append(tiny(r.choice(["client", "server"]), mtu, r.choice([0, 0, 1, -1]), n, ln))
         per = (mtu - 64) // 5          # how many empty messages the capacity admits (below 255 only for tiny MTUs)
         hs.append(tiny("client", mtu, 0, min(255, per), 0))
-    for _ in range(60 if run.thorough() else 8):
+    for _ in range(80 if run.thorough() else 20):
         hs.append(mixed(r.choice(["client", "server"]), r.choice(quick_mtus), r.choice([0, 0, 0, 1, -1])))
     return hs
 
@@ -714,7 +714,7 @@ def packing(run):
             shown += 1
         if len(run.oracle_fail) >= 6:
             return
-    for i in range(12 if run.thorough() else 3):
+    for i in range(30 if run.thorough() else 6):
         mtu = run.rng.choice([512, 1500, 1096, run.rng.randrange(512, 1501)])
         if not net_history(run, mtu, 140, i):
             break
